@@ -60,6 +60,7 @@ Logged(ln) ==
       [] ln.ev = "Fail"            -> Fail(ln.a.s)
       [] ln.ev = "Cancel"          -> Cancel(ln.a.s)
       [] ln.ev = "Removed"         -> ln.a.s \in DOMAIN pc /\ pc[ln.a.s] = "done" /\ Same
+      [] ln.ev = "FloodInfo"       -> Same      \* informational: the queue capacity the harness read from the code
       [] ln.ev = "End"             -> Quiescent(ln.a.nsubs) /\ Same
       [] OTHER                     -> FALSE     \* "Timeout" (a reproduced stall) is explained by nothing
 
